@@ -144,9 +144,9 @@ func buildCfgCase(seed int64, idx int, dir string, thorough bool) *cfgCase {
 				vals[top] = builtin[k.Name]
 			}
 		}
-		// one process in sixteen: the winning source of one UDP port key says 65535, the largest port there is - a value
+		// one process (the seventh; one only, in either tier - the port number is shared by everything on the machine): the winning source of one UDP port key says 65535, the largest port there is - a value
 		// range is part of "a setting is applied" (round 14, C17-m). One such process at a time: the port is shared.
-		if strings.HasPrefix(k.Role, "port:") && idx%16 == 6 && ki == int(seed%2) && sub != 0 {
+		if strings.HasPrefix(k.Role, "port:") && idx == 6 && ki == int(seed%2) && sub != 0 {
 			top := "env"
 			if sub&2 != 0 {
 				top = "file"
@@ -332,8 +332,9 @@ func runCfgCase(c *cfgCase, bin, dir string) (kind, what string, inconcl string)
 	time.Sleep(150 * time.Millisecond) // let late sockets appear so that an unexpected extra one is seen as well
 	udp, tcp = sockets(col.pid())
 	if !col.alive() {
-		c.Stderr = clip(col.stderr(), 1500)
-		if strings.Contains(c.Stderr, "address already in use") || strings.Contains(c.Stderr, "already is running") {
+		full := col.stderr()
+		c.Stderr = clip(full, 1500)
+		if strings.Contains(full, "address already in use") || strings.Contains(full, "already is running") {
 			return "", "", "a port or pid file of this case was taken by something else: " + clip(c.Stderr, 300)
 		}
 		return "died-at-start", "the collector exited during start-up: " + clip(c.Stderr, 600), ""
